@@ -46,6 +46,7 @@ var c11Scens = []scen{
 	{"ocra-long||ocra-long", []string{"ocra-short"}, [][]string{{"ocra-long"}, {"ocra-long-2"}}, [2]int{1, 2}, false},
 	{"ocra-gen||ocra-validate||adversary", []string{"ocra-short"}, [][]string{{"ocra-short"}, {"ocra-validate-hit"}, {"adversary-6287"}}, [2]int{1, 2}, false},
 	{"suites", nil, [][]string{{"suite OCRA-1:HOTP-SHA256-8:C-QA10-PSHA256-S-T1"}, {"suite OCRA-1:HOTP-SHA256-7:QN10-T5M"}, {"list-suites"}}, [2]int{1, 2}, false},
+	{"suite look-alikes after the originals", churnWarm(), [][]string{{"suite-lookalikes-refused"}, {"suite-parse-8", "suite-parse-15"}}, [2]int{1, 1}, false},
 	{"suite-cache churn", churnWarm(), [][]string{{"suite-parse-40", "suite-parse-39", "suite-parse-37", "suite-parse-33", "suite-parse-25", "suite-parse-9"}, {"suite-parse-41", "suite-parse-42", "suite-parse-43"}}, [2]int{1, 2}, false},
 	{"url||url", []string{"url-totp"}, [][]string{{"url-totp"}, {"url-hotp"}}, [2]int{1, 2}, false},
 	{"url-hotp||url-hotp", nil, [][]string{{"url-hotp"}, {"url-hotp-2"}}, [2]int{1, 2}, false},
@@ -66,6 +67,8 @@ var c11Scens = []scen{
 	{"first use: url||decode||random", nil, [][]string{{"url-totp"}, {"decode-secret-1"}, {"random-secret-0"}}, [2]int{1, 2}, false},
 	{"random||random", nil, [][]string{{"random-stream-0"}, {"random-stream-0"}}, [2]int{2, 3}, false},
 	{"random||random 64", []string{"random-stream-0"}, [][]string{{"random-stream-2"}, {"random-stream-0"}}, [2]int{2, 3}, false},
+	{"random after refused algorithms: random||random", []string{"random-refused"}, [][]string{{"random-stream-0"}, {"random-stream-2"}}, [2]int{2, 3}, false},
+	{"random refused||random||random", nil, [][]string{{"random-refused"}, {"random-stream-0", "random-stream-2"}, {"random-stream-2"}}, [2]int{1, 2}, false},
 	{"random 1||2||decode", nil, [][]string{{"random-stream-0"}, {"random-stream-2", "random-stream-0"}, {"decode-secret-1"}}, [2]int{1, 2}, false},
 	{"ocra fields in one shared buffer", nil, [][]string{{"ocra-arena-0"}, {"ocra-arena-1"}, {"ocra-arena-2"}}, [2]int{1, 2}, false},
 	{"ocra fields in one shared buffer 1||2", []string{"ocra-short"}, [][]string{{"ocra-arena-1"}, {"ocra-arena-0", "ocra-arena-2"}}, [2]int{2, 3}, false},
